@@ -875,3 +875,74 @@ Theorem C01_nbx_fair_termination : forall P (R : Z -> list Z) (sorted : bool) (f
   (NbxSched.nbx_rounds P R <= k)%nat -> SemPoll.pfinal s.
 Proof. intros P R sorted fuel HR. exact (NbxSched.nbx_fair_termination P R false (fun _ _ => []) sorted fuel HR). Qed.
 Print Assumptions C01_nbx_fair_termination.
+
+(* ---- SUPERSET in the semantics with polls (C01/SuperSched.v).  The callback compute_superset is a parameter, as in C01_superset_round_semantics:
+   extra q = the extra receivers it gives rank q (distinct ranks of the communicator), supers r = the ranks it announces to r; CONTRACT: supers r
+   is a permutation of (the ranks that list r) ++ (the ranks whose extra receivers contain r) - SuperSched.X P extra r.  System super_sys: rank
+   r < P runs super_core fuel (R r) None (extra r) (supers r) sorted .. (what notify_prog gives for typ = 8).  Polls: Iprobe on the TRUE tag,
+   then on the EXTRA tag; no synchronous sends, no barrier. *)
+From ScV Require C01.SuperSched.
+Theorem C01_superset_is_notify_prog : forall fuel P me ntop nint nbot sorted (R : list Z) sz eager extra supers,
+  notify_prog fuel 8 P me ntop nint nbot sorted R None sz eager extra supers = super_core fuel R None extra supers sorted (fun s g => Ret (result s g)).
+Proof. exact SuperSched.super_is_notify_prog. Qed.
+Print Assumptions C01_superset_is_notify_prog.
+
+Theorem C01_superset_bounds : forall P (R extra : Z -> list Z),
+  SuperSched.X P extra = (fun r => filter (fun q => memz r (extra q)) (ranks P)) /\
+  SuperSched.super_bound P R extra =
+    list_sum (map (fun r => 3 * length (R r) + 3 * length (extra r) + 2 * (length (transpose P R r) + length (SuperSched.X P extra r)) + 2)%nat (ranks P)) /\
+  SuperSched.super_rounds P R extra =
+    list_sum (map (fun r => length (R r) + length (extra r) + length (transpose P R r) + length (SuperSched.X P extra r) + 1)%nat (ranks P)).
+Proof. intros P R extra. repeat split; reflexivity. Qed.
+Print Assumptions C01_superset_bounds.
+
+(* SUPERSET, EVERY SCHEDULE (no fairness assumed): under the contract of the callback, for every run of n steps with n + super_bound < fuel
+   (fuel = the model's bound on the loop iterations; the C loop has none): (a) a final state has on every rank r the result `result o []`,
+   o a permutation of the transposed list (equal to it if sorted; the extra contacts are not reported), and every channel - of both tags -
+   is empty; (b) no rank is blocked; (c) a final state is reachable by at most super_bound further steps.  Invariant: SuperSched.SInv
+   (SuperSched.super_safety); a rank in the loop still waits for queue = |supers| - received > 0 messages, and exactly that many messages
+   are in flight to it or still to be sent to it.  The round abstraction of C01_superset_round_semantics is discharged. *)
+Theorem C01_superset_every_schedule : forall P (R extra supers : Z -> list Z) (sorted : bool) (fuel : nat),
+  (forall f, 0 <= f < P -> ssorted (fun x => x) (R f) /\ forall t, In t (R f) -> 0 <= t < P) ->
+  (forall f, 0 <= f < P -> NoDup (extra f) /\ forall t, In t (extra f) -> 0 <= t < P) ->
+  (forall r, 0 <= r < P -> Permutation (supers r) (transpose P R r ++ SuperSched.X P extra r)) ->
+  forall n s, SemPoll.run_p P SuperSched.super_poll SuperSched.super_stags n (SuperSched.super_sys P R false (fun _ _ => []) extra supers sorted fuel) s ->
+  (n + SuperSched.super_bound P R extra < fuel)%nat ->
+    (SemPoll.pfinal s ->
+       (forall r, 0 <= r < P -> exists o, Permutation o (transpose P R r) /\ (sorted = true -> o = transpose P R r) /\
+                                         SemPoll.ppr s r = Ret (result o [])) /\
+       (forall a b t, SemPoll.pch s a b t = [])) /\
+    (forall r, 0 <= r < P -> (exists o, SemPoll.ppr s r = Ret o) \/
+                             exists s', SemPoll.step_p P SuperSched.super_poll SuperSched.super_stags s r s') /\
+    (exists m s', SemPoll.run_p P SuperSched.super_poll SuperSched.super_stags m s s' /\ (m <= SuperSched.super_bound P R extra)%nat /\ SemPoll.pfinal s').
+Proof.
+  intros P R extra supers sorted fuel HR HX Hc.
+  exact (SuperSched.super_every_schedule P R false (fun _ _ => []) extra supers sorted fuel HR HX (SuperSched.contract_length P R extra supers Hc)).
+Qed.
+Print Assumptions C01_superset_every_schedule.
+
+(* NO ENDLESS POLLING UNDER WEAK FAIRNESS (cf. C01_nbx_fair_termination): sfair_segs P k s s' = k fair segments in sequence (at the end of a
+   segment every rank has returned or has moved at least twice in it; same definition as NbxSched.fair_segs, for superset's polling tags);
+   a run from the initial state of k >= super_rounds fair segments ends in a final state *)
+Theorem C01_superset_fair_segs_def : forall P k s s2,
+  SuperSched.sfair_segs P (S k) s s2 <->
+  exists ls s1, SuperSched.srunl P ls s s1 /\
+                (forall r, 0 <= r < P -> (exists o, SemPoll.ppr s1 r = Ret o) \/ (2 <= SuperSched.scnt r ls)%nat) /\
+                SuperSched.sfair_segs P k s1 s2.
+Proof.
+  intros P k s s2. split.
+  - intros H. inversion H; subst. eauto.
+  - intros [ls [s1 [H1 [H2 H3]]]]. econstructor; eassumption.
+Qed.
+Print Assumptions C01_superset_fair_segs_def.
+Theorem C01_superset_fair_termination : forall P (R extra supers : Z -> list Z) (sorted : bool) (fuel : nat),
+  (forall f, 0 <= f < P -> ssorted (fun x => x) (R f) /\ forall t, In t (R f) -> 0 <= t < P) ->
+  (forall f, 0 <= f < P -> NoDup (extra f) /\ forall t, In t (extra f) -> 0 <= t < P) ->
+  (forall r, 0 <= r < P -> Permutation (supers r) (transpose P R r ++ SuperSched.X P extra r)) ->
+  forall k s, SuperSched.sfair_segs P k (SuperSched.super_sys P R false (fun _ _ => []) extra supers sorted fuel) s ->
+  (SuperSched.super_rounds P R extra <= k)%nat -> SemPoll.pfinal s.
+Proof.
+  intros P R extra supers sorted fuel HR HX Hc.
+  exact (SuperSched.super_fair_termination P R false (fun _ _ => []) extra supers sorted fuel HR HX (SuperSched.contract_length P R extra supers Hc)).
+Qed.
+Print Assumptions C01_superset_fair_termination.
